@@ -17,7 +17,10 @@
 (*           whose text re-creates the serialised text of a two-entry      *)
 (*           mapping / two-item sequence                                   *)
 (*  "table"  the verification outcome table: hosts x vars shape x          *)
-(*           signature x exclusion list x excluded child                   *)
+(*           signature x exclusion list x excluded child; plus plays with  *)
+(*           top-level labels that merely start with hosts / vars          *)
+(*           (vars_files, vars_prompt, hostsfile, host) and requests       *)
+(*           naming them or their children                                 *)
 (*  "touch"  every single scalar edit of every accepted "table" play       *)
 (*           (inside and outside the excluded elements)                    *)
 (***************************************************************************)
@@ -109,7 +112,21 @@ Lists == { P1(HOSTS), P2(VARS, SIG), StdList, P1(VARS), P1(TASKS), P1(NAME), P2(
 ListOpts  == { <<>> } \cup { <<KS(SIGEXCL, S(e))>> : e \in Lists }
 ChildOpts == { <<>>, <<KS(CKEY, S(A))>>, <<KS(CKEY, M(<<KS(A, S(A))>>))>>, <<E(IK(1), S(A))>> }
 TasksE    == <<KS(TASKS, L(<<M(<<KS(A, S(A))>>)>>)), KS(A, M(<<KS(HOSTS, S(A)), KS(CKEY, I(1))>>))>>   \* a non-dynamic mapping too
+\* labels that merely START with a dynamic label (real play keywords vars_files, vars_prompt) or are a prefix of one
+VARSFILES  == VARS \o <<95, 102, 105, 108, 101, 115>>           \* "vars_files"
+VARSPROMPT == VARS \o <<95, 112, 114, 111, 109, 112, 116>>      \* "vars_prompt"
+HOSTSFILE  == HOSTS \o <<102, 105, 108, 101>>                   \* "hostsfile"
+HOST       == <<104, 111, 115, 116>>                            \* "host"
+PrefixE == <<KS(VARSFILES, M(<<KS(A, S(A))>>)), KS(VARSPROMPT, L(<<S(A)>>)), KS(HOSTSFILE, S(A)), KS(HOST, S(A))>>
+PrefixLists == { StdList, P2(VARS, SIG), P1(VARSFILES), P1(VARSPROMPT), P1(HOSTSFILE), P1(HOST), P2(VARSFILES, A),
+                 P2(HOSTSFILE, A), C2(StdList, P1(VARSFILES)), C2(P2(VARS, SIG), P2(VARSFILES, A)),
+                 C2(P1(VARSPROMPT), P2(VARS, SIG)), VARSFILES }
+PrefixTable ==
+    {M(<<KS(NAME, S(A))>> \o h \o <<KS(VARS, M(<<KS(SIGEXCL, S(x)), KS(SIG, S(B64))>> \o c))>> \o PrefixE \o TasksE)
+        : h \in {<<>>, <<KS(HOSTS, S(A))>>}, x \in PrefixLists, c \in {<<>>, <<KS(VARSFILES, S(A))>>}}
+
 Table ==
+    PrefixTable \cup
     {M(<<KS(NAME, S(A))>> \o h \o <<KS(VARS, M(c1 \o x \o s \o c2))>> \o TasksE)
         : h \in HostsOpts, s \in SigOpts, x \in ListOpts,
           <<c1, c2>> \in {<< <<>>, c >> : c \in ChildOpts} \cup {<< <<KS(CKEY, S(A))>>, <<>> >>}}
